@@ -278,7 +278,7 @@ theorem keysOf_congr (c c' : Cfg) (htr : c.tr = c'.tr) (hck : c.ck = c'.ck) (p :
   | [] => rfl
   | x :: xs => by
     have hk : keyOf c p x = keyOf c' p x := by
-      cases x <;> simp [keyOf, hck, recordKey_congr c c' htr]
+      cases x <;> simp [keyOf, hck, recordKey_congr c c' htr, transformAt, transformAtStr, htr]
     simp only [keysOf, hk, keysOf_congr c c' htr hck p xs]
 
 /-! ### PART 2: `compare_only` -/
@@ -542,7 +542,7 @@ theorem keyedWalk_only (cfg : Cfg) (p : Path) (sa oa : Val) (i : Nat) (xs : List
       simp only at h ⊢
       have hseg : onlyKeep cfg (p ++ [if i = j then PSeg.idx i else PSeg.idx2 i j]) = true := by
         split <;> simp
-      cases hcl : classifyItem cfg p (p ++ [if i = j then PSeg.idx i else PSeg.idx2 i j]) (p ++ [.idx i]) sa oa x y with
+      cases hcl : classifyItem cfg p (p ++ [if i = j then PSeg.idx i else PSeg.idx2 i j]) (p ++ [if i = j then PSeg.idx i else PSeg.idx2 i j]) sa oa x y with
       | emit r0 s =>
         rw [hcl] at h
         simp only at h ⊢
@@ -551,7 +551,7 @@ theorem keyedWalk_only (cfg : Cfg) (p : Path) (sa oa : Val) (i : Nat) (xs : List
         | ok r1 =>
           rw [hr] at h; cases h
           obtain ⟨r1', hr1', hf⟩ := keyedWalk_only cfg p sa oa (i + 1) xs ks _ _ r1 hr
-          exact ⟨r0 ++ r1', by rw [hr1'], FiltOf.append (classifyItem_filt hcl hseg (by simp)) hf⟩
+          exact ⟨r0 ++ r1', by rw [hr1'], FiltOf.append (classifyItem_filt hcl hseg hseg) hf⟩
       | descend =>
         rw [hcl] at h
         simp only at h ⊢
@@ -685,14 +685,14 @@ theorem Below.single {ok : PSeg → Bool} {p : Path} {r : Res}
   obtain ⟨s, e, hs⟩ := h q hq
   exact ⟨s, [], e, hs⟩
 
-theorem classifyItem_below {cfg : Cfg} {p : Path} {seg : PSeg} {i : Nat} {sa oa x y : Val} {r : Res} {s : Bool}
+theorem classifyItem_below {cfg : Cfg} {p : Path} {seg : PSeg} {sa oa x y : Val} {r : Res} {s : Bool}
     (hseg : isIdx seg = true)
-    (h : classifyItem cfg p (p ++ [seg]) (p ++ [.idx i]) sa oa x y = .emit r s) : Below isIdx p r := by
+    (h : classifyItem cfg p (p ++ [seg]) (p ++ [seg]) sa oa x y = .emit r s) : Below isIdx p r := by
   apply Below.single
   intro q hq
   rcases classifyItem_paths h q hq with rfl | rfl
   · exact ⟨seg, rfl, hseg⟩
-  · exact ⟨.idx i, rfl, rfl⟩
+  · exact ⟨seg, rfl, hseg⟩
 
 theorem classifyEntry_below {cfg : Cfg} {p : Path} {k : Str} {x y : Val} {r : Res} {s : Bool}
     (h : classifyEntry cfg (p ++ [.key k]) x y = .emit r s) : Below (fun _ => true) p r := by
@@ -885,7 +885,7 @@ theorem keyedWalk_below (cfg : Cfg) (p : Path) (sa oa : Val) (i : Nat) (xs : Lis
       obtain ⟨j, y⟩ := jy
       rw [hf] at h
       simp only at h
-      cases hcl : classifyItem cfg p (p ++ [if i = j then PSeg.idx i else PSeg.idx2 i j]) (p ++ [.idx i]) sa oa x y with
+      cases hcl : classifyItem cfg p (p ++ [if i = j then PSeg.idx i else PSeg.idx2 i j]) (p ++ [if i = j then PSeg.idx i else PSeg.idx2 i j]) sa oa x y with
       | emit r0 s =>
         rw [hcl] at h
         simp only at h
@@ -1208,7 +1208,7 @@ theorem keyedWalk_excl (cfg : Cfg) (p : Path) (sa oa : Val) (i : Nat) (xs : List
       obtain ⟨j, y⟩ := jy
       rw [hf] at h
       simp only at h ⊢
-      cases hcl : classifyItem cfg p (p ++ [if i = j then PSeg.idx i else PSeg.idx2 i j]) (p ++ [.idx i]) sa oa x y with
+      cases hcl : classifyItem cfg p (p ++ [if i = j then PSeg.idx i else PSeg.idx2 i j]) (p ++ [if i = j then PSeg.idx i else PSeg.idx2 i j]) sa oa x y with
       | emit r0 s =>
         rw [hcl] at h
         simp only at h ⊢
@@ -1218,7 +1218,7 @@ theorem keyedWalk_excl (cfg : Cfg) (p : Path) (sa oa : Val) (i : Nat) (xs : List
           rw [hr] at h; cases h
           obtain ⟨r1', hr1', hf⟩ := keyedWalk_excl cfg p sa oa (i + 1) xs ks _ _ r1 hp hr
           exact ⟨r0 ++ r1', by rw [hr1'], FiltOf.append
-            (classifyItem_filt hcl (exKeep_idxSeg cfg p _ hp (isIdx_seg i j)) (exKeep_idxSeg cfg p _ hp rfl)) hf⟩
+            (classifyItem_filt hcl (exKeep_idxSeg cfg p _ hp (isIdx_seg i j)) (exKeep_idxSeg cfg p _ hp (isIdx_seg i j))) hf⟩
       | descend =>
         rw [hcl] at h
         simp only at h ⊢
